@@ -21,9 +21,11 @@ func verifFarmStep(op int) {
 	// the operation runs in the middle of the pool's life or in the very block of its end height (the
 	// end-block handler of that block has not run yet: the pool is still queued and fully active)
 	// ... or after the pool has ended (end-block handler ran at 40: queue entry gone, budget refunded)
-	phase := verifChoice("phase", 3)
-	h := []int64{20, 40, 45}[phase]
+	// ... or before the pool's start height (start in the future: nobody can be staked yet)
+	phase := verifChoice("phase", 4)
+	h := []int64{20, 40, 45, 3}[phase]
 	afterEnd := phase == 2
+	beforeStart := phase == 3
 	e := newFmEnv(h)
 	zero, one := big.NewInt(0), big.NewInt(1)
 	w := verifPow2(64)
@@ -46,6 +48,10 @@ func verifFarmStep(op int) {
 	if afterEnd {
 		st.last = 40
 		verifAssume(remaining.IsZero() && gap == 0)
+	}
+	if beforeStart {
+		verifAssume(lockedA.IsZero() && rest.IsZero() && gap == 0 && remaining.Equal(total) && rps.IsZero())
+		st.last = 0
 	}
 	e.seedPool(st)
 	if afterEnd {
@@ -95,6 +101,7 @@ func verifFarmStep(op int) {
 		return
 	}
 	verifCover("done")
+	verifAssert(!beforeStart, "before the pool's start height nobody stakes, withdraws or harvests")
 	delta := big.NewInt(0)
 	switch op {
 	case 0:
